@@ -45,4 +45,27 @@ theorem routeM_expr_all_layouts (e : Env) (fuel : Nat) (ctx : Ctx) (n : ANode) (
   · show streamText .lit _ = _; rw [em .lit, hs' .lit]; rfl
   · show streamText .verb _ = _; rw [em .verb, hs' .verb]; rfl
 
+/-- **Whole documents.**  If the (annotated) tree of a document lies in the covered fragment, every
+certificate of the printed family holds — as a theorem, with nothing evaluated: whatever `printTwin`
+returns for it is `good` and carries exactly the tokens, comments, verbatim text, prose and literals
+the tree prescribes.  (`C01_tokens_preserved`, `C06_comments_preserved`, `C07_verbatim_preserved`,
+`C08_prose_preserved`, `C10_literals_preserved` then apply with their hypothesis discharged.) -/
+theorem routeM_document (e : Env) (root : Node) (hk : (prepare root).kind = .markup) (hq : inFrag (prepare root) = true)
+    (d : Twin.Doc) (calls : Nat) (h : printTwin e root = .ok (d, calls)) :
+    tokensCertified root d = true ∧ commentsCertified root d = true ∧ verbatimCertified root d = true ∧
+    proseCertified root d = true ∧ literalsCertified root d = true := by
+  unfold printTwin at h
+  simp only at h
+  split at h
+  · rename_i d' s' hrun
+    simp only [Except.ok.injEq, Prod.mk.injEq] at h
+    obtain ⟨rfl, _⟩ := h
+    have hc := (knot_frag e _).markup {} (prepare root) .document hk hq _ _ _ hrun
+    obtain ⟨hg, hs⟩ := hc
+    unfold tokensCertified commentsCertified verbatimCertified proseCertified literalsCertified
+      Twin.Doc.toks Twin.Doc.cmts Twin.Doc.verbs Twin.Doc.prose Twin.Doc.lits
+    rw [hg, hs]
+    simp [specAll]
+  · cases h
+
 end Typstyle
